@@ -5,7 +5,7 @@
    dictionary: length, consumption, value of each sample as a function of its pair.
    Part 3 (Section Multivariate): multivariate draws = mean + L z row by row. *)
 From Coq Require Import List Arith Lia Ring Field Bool NArith ZArith ZifyNat.
-From EasyML Require Import Base.Sx Model.Num Model.Gaussian Proofs.C14P.
+From EasyML Require Import Base.Sx Model.Num Model.Stats Model.Gaussian Proofs.C14P.
 Import ListNotations.
 
 Ltac Zify.zify_post_hook ::= Z.div_mod_to_equations.
@@ -49,6 +49,16 @@ Proof.
   rewrite (sqrt_mul _ _ Hv Hp). f_equal. f_equal.
   rewrite <- (sqrt_sqr var Hv) at 3. set (sd := nsqrt ops var) in *.
   field. split; assumption.
+Qed.
+
+(* Gaussian::approximating: the population mean and variance of the data *)
+Theorem approximating_correct (l : list R) :
+  (l <> [] -> approximating ops l = Ok (mkGaussian (mean_spec ops l) (var_spec ops l))) /\
+  approximating ops [] = Panic.
+Proof.
+  split; [|reflexivity]. intros Hne. unfold approximating.
+  rewrite (mean_correct ops Fth l Hne). cbn [obind].
+  now rewrite (variance_correct ops Fth l Hne).
 Qed.
 
 End Density.
